@@ -425,7 +425,7 @@ theorem expandVars_ext {W : Ref → Prop} {h0 : Heap} :
           rw [fr2 r (Nat.lt_of_lt_of_le hr' le1), fr1 r hr']⟩
       · cases hr
 
-theorem selectVars_mem {vs : List Ref} : ∀ (ks : List Nat) (vs' : List Ref), selectVars vs ks = some vs' →
+theorem selectVars_mem {vs : List Ref} : ∀ (ks : List Int) (vs' : List Ref), selectVars vs ks = some vs' →
     ∀ v, v ∈ vs' → v ∈ vs := by
   intro ks
   induction ks with
@@ -443,7 +443,11 @@ theorem selectVars_mem {vs : List Ref} : ∀ (ks : List Nat) (vs' : List Ref), s
       subst hs
       simp only [List.mem_cons] at hv
       rcases hv with rfl | hv
-      · exact List.mem_of_getElem? hk
+      · cases hj : resolveIdx vs.length k with
+        | none => simp [hj] at hk
+        | some j =>
+          simp only [hj, Option.bind_some] at hk
+          exact List.mem_of_getElem? hk
       · exact ih rest hrest v hv
     · cases hs
 
